@@ -744,7 +744,9 @@ class WExec:
         raise Unsupported("br to unknown label %s" % label)
 
     def finish(self, st, value):
-        self.paths.append(Path(st.pc, st.trace, "return", value, model=st.model))
+        p = Path(st.pc, st.trace, "return", value, model=st.model)
+        p.heap = st.heap
+        self.paths.append(p)
 
     def step(self, st, work):
         last_val = None
